@@ -23,10 +23,10 @@ NA.update({
 })
 
 k("C05",
-  "Bounded model checking of the real permutation enumerator behind RDFC-1.0's n-degree hash: for n<=4 pairwise distinct symbolic elements CBMC proves exactly n! "
+  "Bounded model checking of the real permutation enumerator behind RDFC-1.0's n-degree hash: for n<=5 pairwise distinct symbolic elements CBMC proves exactly n! "
   "callbacks, each a permutation of the input, all pairwise different, and that a callback error stops the enumeration and is propagated. Partial: the rest of C05 "
   "(hashing, issuer, iff) is outside the claim.",
-  "Trusted: Kani/CBMC. Outside: SHA-2, BTreeMap<Rc<str>>, format!-built identifiers (not encodable: DESIGN.md probes 19,20,24); n>4.",
+  "Trusted: Kani/CBMC. Outside: SHA-2, BTreeMap<Rc<str>>, format!-built identifiers (not encodable: DESIGN.md probes 19,20,24); n>5.",
   "Kani proof harnesses over symbolic distinct elements and symbolic failure position, CBMC/SAT",
   "DESIGN.md 4 C05")
 
